@@ -3,8 +3,10 @@ package props
 import (
 	"encoding/json"
 	"fmt"
+	"github.com/aml-org/amf-custom-validator/pkg/config"
 	"math/big"
 	"strings"
+	"time"
 
 	"github.com/aml-org/amf-custom-validator/pkg"
 	"github.com/aml-org/amf-custom-validator/verifh/core"
@@ -276,6 +278,9 @@ func C14(e *core.Env) {
 	for ci, c := range cases {
 		data := c.jsonld()
 		out, err := pkg.Validate(c14Profile, data, false, nil)
+		if err == nil && reportTextCheckProfile(e, "C14 lexical", c14Profile, data, time.Time{}, true, config.DefaultReportConfiguration(), out, map[string]any{"profile": c14Profile, "data": core.Trunc(data, 4000)}) {
+			res.Count("report-bytes=equal")
+		}
 		replay := map[string]any{"profile": c14Profile, "data": data}
 		if err != nil {
 			replay["error"] = err.Error()
